@@ -262,8 +262,8 @@ Proof.
         destruct rP as [|y2 rP]; cbn [app map].
         -- destruct fd; cbn; reflexivity.
         -- cbn [lenN]. destruct fd; cbn [andb sign_is].
-           ++ destruct (N.eqb_spec (N.succ (lenN (rP ++ [dot]))) 1) as [H|H]; [|lia].
-              rewrite lenN_app in H. cbn [lenN] in H. lia.
+           ++ destruct (N.eqb_spec (N.succ (lenN (rP ++ [dot]))) 1) as [H|H]; [|cbn; lia].
+              exfalso. rewrite lenN_app in H. cbn [lenN] in H. lia.
            ++ rewrite andb_false_r. lia.
       * destruct rP as [|y2 rP].
         -- destruct fd; cbn [app].
@@ -313,3 +313,554 @@ Qed.
 
 Lemma mdn_empty_host h d : strip_dots h = [] -> matchDomainName h d = -1.
 Proof. intros E. unfold matchDomainName. rewrite E. reflexivity. Qed.
+
+(* ------------------------------------------------------------------ *)
+(* Compare() on well-formed values                                     *)
+Lemma sign_is_lt c z : sign_is c z -> (z < 0 <-> c = Lt).
+Proof. destruct c; cbn [sign_is]; intros H; split; intros G; try discriminate; try lia; reflexivity. Qed.
+Lemma sign_is_eq c z : sign_is c z -> (z = 0 <-> c = Eq).
+Proof. destruct c; cbn [sign_is]; intros H; split; intros G; try discriminate; try lia; reflexivity. Qed.
+Lemma sign_is_gt c z : sign_is c z -> (z > 0 <-> c = Gt).
+Proof. destruct c; cbn [sign_is]; intros H; split; intros G; try discriminate; try lia; reflexivity. Qed.
+
+Lemma wf_nonempty v : wf v -> v <> [].
+Proof. intros [H _] ->. apply H. reflexivity. Qed.
+
+Lemma wf_strip v : wf v -> strip_dots v = root1 v.
+Proof.
+  intros [Hne Hd]. unfold root1 in *. destruct v as [|c v]; [reflexivity|].
+  cbn [first_is_dot strip_dots tl] in *. destruct (N.eqb_spec c dot) as [E|E].
+  - apply strip_dots_id, Hd.
+  - reflexivity.
+Qed.
+
+Lemma mdn_wf a b : wf a -> wf b -> sign_is (vpos (lo a) b) (matchDomainName a b).
+Proof.
+  intros Ha Hb. pose proof (mdn_pos a b (wf_nonempty b Hb)) as H.
+  rewrite (wf_strip a Ha) in H. apply H. apply Ha.
+Qed.
+
+(* the interval of a lies entirely before the interval of b *)
+Definition before (a b : bytes) : Prop := lle (hi a) (lo b).
+
+Lemma before_lo a b : before a b -> llt (lo a) (lo b).
+Proof. intros H. eapply llt_lle_trans; [apply lo_lt_hi| exact H]. Qed.
+
+Lemma before_trans a b c : before a b -> before b c -> before a c.
+Proof.
+  unfold before. intros H1 H2. apply llt_lle.
+  eapply lle_llt_trans; [exact H1|]. eapply llt_lle_trans; [apply lo_lt_hi| exact H2].
+Qed.
+
+Lemma before_irrefl a : ~ before a a.
+Proof. intros H. apply before_lo in H. exact (llt_irrefl _ H). Qed.
+
+Lemma before_asym a b : before a b -> before b a -> False.
+Proof. intros H1 H2. exact (before_irrefl a (before_trans _ _ _ H1 H2)). Qed.
+
+Theorem dcompare_neg a b : wf a -> wf b -> (dcompare a b < 0 <-> before a b).
+Proof.
+  intros Ha Hb. pose proof (mdn_wf a b Ha Hb) as Sab. pose proof (mdn_wf b a Hb Ha) as Sba.
+  unfold dcompare. split.
+  - destruct (Z.eqb_spec (matchDomainName b a) 0) as [E|E]; [lia|]. intros H.
+    apply (sign_is_lt _ _ Sab) in H. apply vpos_Lt in H.
+    destruct (vpos (lo b) a) eqn:P.
+    + exfalso. apply E. apply (sign_is_eq _ _ Sba). reflexivity.
+    + apply vpos_Lt in P. exfalso. exact (llt_irrefl _ (llt_trans _ _ _ H P)).
+    + apply vpos_Gt in P. exact P.
+  - intros H. pose proof H as H'. apply vpos_Gt in H'. apply (sign_is_gt _ _ Sba) in H'.
+    destruct (Z.eqb_spec (matchDomainName b a) 0) as [E|E]; [lia|].
+    apply (sign_is_lt _ _ Sab). apply vpos_Lt. apply before_lo, H.
+Qed.
+
+Theorem dcompare_pos a b : wf a -> wf b -> (dcompare a b > 0 <-> before b a).
+Proof.
+  intros Ha Hb. pose proof (mdn_wf a b Ha Hb) as Sab. pose proof (mdn_wf b a Hb Ha) as Sba.
+  unfold dcompare. split.
+  - destruct (Z.eqb_spec (matchDomainName b a) 0) as [E|E]; [lia|]. intros H.
+    apply (sign_is_gt _ _ Sab) in H. apply vpos_Gt in H. exact H.
+  - intros H. pose proof H as H'. apply vpos_Gt in H'. apply (sign_is_gt _ _ Sab) in H'.
+    pose proof (before_lo _ _ H) as L. apply vpos_Lt in L. apply (sign_is_lt _ _ Sba) in L.
+    destruct (Z.eqb_spec (matchDomainName b a) 0) as [E|E]; [lia| exact H'].
+Qed.
+
+Definition inI (q : list N) (v : bytes) : Prop := vpos q v = Eq.
+
+Theorem dcompare_zero a b : wf a -> wf b -> dcompare a b = 0 -> inI (lo b) a \/ inI (lo a) b.
+Proof.
+  intros Ha Hb. pose proof (mdn_wf a b Ha Hb) as Sab. pose proof (mdn_wf b a Hb Ha) as Sba.
+  unfold dcompare, inI. destruct (Z.eqb_spec (matchDomainName b a) 0) as [E|E].
+  - intros _. left. apply (sign_is_eq _ _ Sba), E.
+  - intros H. right. apply (sign_is_eq _ _ Sab), H.
+Qed.
+
+Lemma dcompare_refl a : wf a -> dcompare a a = 0.
+Proof.
+  intros Ha. pose proof (mdn_wf a a Ha Ha) as S. unfold dcompare.
+  assert (E : matchDomainName a a = 0) by (apply (sign_is_eq _ _ S), vpos_lo).
+  rewrite E. reflexivity.
+Qed.
+
+(* ------------------------------------------------------------------ *)
+(* sequences sorted by "entirely before", and sign monotonicity        *)
+Fixpoint sd (l : list bytes) : Prop :=
+  match l with
+  | [] => True
+  | x :: r => Forall (before x) r /\ sd r
+  end.
+
+Lemma sd_app a b : sd (a ++ b) <-> sd a /\ sd b /\ (forall x y, In x a -> In y b -> before x y).
+Proof.
+  induction a as [|x a IH]; cbn [app sd].
+  - split; [intros H; repeat split; [exact H| intros x y []] | intros (_ & H & _); exact H].
+  - rewrite IH. rewrite Forall_app. split.
+    + intros ((Fa & Fb) & Ma & Mb & Hc). repeat split; try assumption.
+      intros x0 y [<-|Hx] Hy; [rewrite Forall_forall in Fb; apply Fb, Hy| apply Hc; assumption].
+    + intros ((Fa & Ma) & Mb & Hc). repeat split; try assumption.
+      * rewrite Forall_forall. intros y Hy. apply Hc; [left; reflexivity| exact Hy].
+      * intros x0 y Hx Hy. apply Hc; [right; exact Hx| exact Hy].
+Qed.
+
+Lemma mono_of_sd (c : bytes -> Z) l :
+  (forall x y, wf x -> wf y -> before x y -> Z.sgn (c y) <= Z.sgn (c x)) ->
+  Forall wf l -> sd l -> mono c l.
+Proof.
+  intros Hc. induction l as [|x l IH]; intros W S; cbn [mono]; [exact I|].
+  inversion W as [|? ? Wx Wl]; subst. destruct S as [F S]. split; [|apply IH; assumption].
+  rewrite Forall_forall in *. intros y Hy. apply Hc; [exact Wx| apply Wl, Hy| apply F, Hy].
+Qed.
+
+Theorem mono_dcompare a l : wf a -> Forall wf l -> sd l -> mono (dcompare a) l.
+Proof.
+  intros Ha. apply mono_of_sd. intros x y Wx Wy B.
+  destruct (Z.lt_trichotomy (dcompare a x) 0) as [H|[H|H]].
+  - apply (dcompare_neg a x Ha Wx) in H.
+    assert (H2 : dcompare a y < 0) by (apply (dcompare_neg a y Ha Wy); eapply before_trans; eassumption).
+    lia.
+  - destruct (Z.lt_trichotomy (dcompare a y) 0) as [G|[G|G]]; try lia.
+    assert (G' : dcompare a y > 0) by lia. apply (dcompare_pos a y Ha Wy) in G'.
+    assert (H2 : dcompare a x > 0) by (apply (dcompare_pos a x Ha Wx); eapply before_trans; eassumption).
+    lia.
+  - lia.
+Qed.
+
+Theorem mono_host h l : Forall wf l -> sd l -> mono (host_cmp h) l.
+Proof.
+  apply mono_of_sd. intros x y Wx Wy B. unfold host_cmp.
+  destruct (strip_dots h) as [|c h'] eqn:Eh.
+  - rewrite !mdn_empty_host by exact Eh. lia.
+  - assert (Hh : strip_dots h <> []) by (rewrite Eh; discriminate).
+    pose proof (mdn_pos h x (wf_nonempty x Wx) Hh) as Sx.
+    pose proof (mdn_pos h y (wf_nonempty y Wy) Hh) as Sy.
+    rewrite Eh in Sx, Sy. set (q := rk (c :: h')) in *.
+    destruct (vpos q x) eqn:Px; cbn [sign_is] in Sx.
+    + (* q inside x: it cannot be at or after the end of y *)
+      destruct (vpos q y) eqn:Py; cbn [sign_is] in Sy; try lia.
+      exfalso. apply vpos_Gt in Py.
+      assert (G : lle (hi x) q).
+      { apply llt_lle. eapply llt_lle_trans; [|exact Py]. eapply lle_llt_trans; [exact B| apply lo_lt_hi]. }
+      apply vpos_Gt in G. congruence.
+    + apply vpos_Lt in Px.
+      assert (G : llt q (lo y)) by (eapply llt_trans; [exact Px| apply before_lo, B]).
+      apply vpos_Lt in G. rewrite G in Sy. cbn [sign_is] in Sy. lia.
+    + lia.
+Qed.
+
+(* ------------------------------------------------------------------ *)
+(* IsSubset() decides inclusion of overlapping intervals               *)
+Lemma inI_plain q v : first_is_dot v = false -> (inI q v <-> q = lo v).
+Proof.
+  intros Hf. unfold inI, vpos, ext. rewrite Hf. rewrite pos_Eq. split; [|auto].
+  intros [H|(x & w & _ & L)]; [exact H| lia].
+Qed.
+
+Lemma inI_dot q v : first_is_dot v = true -> (inI q v <-> q = lo v \/ exists w, q = lo v ++ 0%N :: w).
+Proof.
+  intros Hf. unfold inI, vpos, ext. rewrite Hf. rewrite pos_Eq. split.
+  - intros [H|(x & w & H & L)]; [auto|]. right. exists w. assert (x = 0%N) by lia. subst x. exact H.
+  - intros [H|(w & H)]; [auto|]. right. exists 0%N, w. split; [exact H| lia].
+Qed.
+
+Lemma dot_nested a b : first_is_dot a = true -> inI (lo b) a -> forall q, inI q b -> inI q a.
+Proof.
+  intros Fa Hb q Hq. apply (inI_dot _ _ Fa) in Hb. apply (inI_dot _ _ Fa).
+  destruct (first_is_dot b) eqn:Fb.
+  - apply (inI_dot _ _ Fb) in Hq.
+    destruct Hb as [Hb|(w & Hb)]; rewrite Hb in Hq.
+    + exact Hq.
+    + right. destruct Hq as [->|(w' & ->)]; [exists w; reflexivity|].
+      exists (w ++ 0%N :: w'). rewrite <- app_assoc. reflexivity.
+  - apply (inI_plain _ _ Fb) in Hq. subst q. exact Hb.
+Qed.
+
+Lemma lo_length v : length (lo v) = length (root1 v).
+Proof. unfold lo, rk. now rewrite map_length, rev_length. Qed.
+
+Lemma lenN_dot v : first_is_dot v = true -> lenN v = N.succ (N.of_nat (length (lo v))).
+Proof.
+  intros Hf. rewrite lo_length. unfold root1. rewrite Hf. destruct v as [|c v]; [discriminate|].
+  cbn [lenN tl]. now rewrite lenN_length.
+Qed.
+
+Theorem subset_sound a b : wf a -> wf b -> (inI (lo b) a \/ inI (lo a) b) ->
+  is_subset a b = true -> forall q, inI q a -> inI q b.
+Proof.
+  intros Wa Wb Ov. unfold is_subset.
+  destruct (first_is_dot a) eqn:Fa; destruct (first_is_dot b) eqn:Fb; cbn [andb negb].
+  - intros L q Hq. apply N.leb_le in L.
+    destruct Ov as [Hb|Ha].
+    + pose proof Hb as Hb'. apply (inI_dot _ _ Fa) in Hb'. destruct Hb' as [E|(w & E)].
+      * unfold inI, vpos, ext in *. rewrite Fa in Hq. rewrite Fb, E. exact Hq.
+      * exfalso. rewrite (lenN_dot a Fa), (lenN_dot b Fb), E, app_length in L. cbn [length] in L. lia.
+    + exact (dot_nested b a Fb Ha q Hq).
+  - discriminate.
+  - intros _ q Hq. apply (inI_plain _ _ Fa) in Hq. subst q.
+    destruct Ov as [Hb|Ha]; [|exact Ha].
+    apply (inI_plain _ _ Fa) in Hb. rewrite <- Hb. apply vpos_lo.
+  - intros _ q Hq. apply (inI_plain _ _ Fa) in Hq. subst q.
+    destruct Ov as [Hb|Ha]; [|exact Ha].
+    apply (inI_plain _ _ Fa) in Hb. rewrite <- Hb. apply vpos_lo.
+Qed.
+
+Theorem subset_total a b : is_subset a b = false -> is_subset b a = true.
+Proof.
+  unfold is_subset.
+  destruct (first_is_dot a) eqn:Fa; destruct (first_is_dot b) eqn:Fb; cbn [andb negb]; try discriminate; try reflexivity.
+  intros L. apply N.leb_gt in L. apply N.leb_le. lia.
+Qed.
+
+(* ------------------------------------------------------------------ *)
+(* Merge(): the stored sequence stays sorted and disjoint, its union grows by the new value *)
+Definition inv (t : tree bytes) : Prop := Forall wf (inorder t) /\ sd (inorder t).
+Definition covered (q : list N) (l : list bytes) : Prop := exists x, In x l /\ inI q x.
+
+Lemma covered_app q a b : covered q (a ++ b) <-> covered q a \/ covered q b.
+Proof.
+  unfold covered. split.
+  - intros (x & Hx & Hq). apply in_app_or in Hx. destruct Hx; [left|right]; exists x; auto.
+  - intros [(x & Hx & Hq)|(x & Hx & Hq)]; exists x; split; auto using in_or_app.
+Qed.
+
+Lemma covered_cons q x l : covered q (x :: l) <-> inI q x \/ covered q l.
+Proof.
+  unfold covered. split.
+  - intros (y & [<-|Hy] & Hq); [left; exact Hq| right; exists y; auto].
+  - intros [Hq|(y & Hy & Hq)]; [exists x; split; [left; reflexivity| exact Hq]| exists y; split; [right; exact Hy| exact Hq]].
+Qed.
+
+Lemma inv_leaf : inv Leaf.
+Proof. split; [constructor| exact I]. Qed.
+
+Theorem merge_spec : forall fuel t n v, inv t -> wf v -> (tree_size t < fuel)%nat ->
+  exists t' n', merge fuel t n v = MOk t' n' /\ inv t' /\
+    (forall q, covered q (inorder t') <-> covered q (inorder t) \/ inI q v).
+Proof.
+  induction fuel as [|f IH]; intros t n v [W S] Wv Hf; [lia|].
+  cbn [merge].
+  pose proof (mono_dcompare v (inorder t) Wv W S) as M.
+  destruct (sp_insert (dcompare v) v t) as [t1 [old|]] eqn:Ei.
+  - destruct (sp_insert_found _ _ _ _ _ Ei) as (Hi & Hz & Hin).
+    assert (Wold : wf old) by (rewrite Forall_forall in W; apply W, Hin).
+    pose proof (dcompare_zero v old Wv Wold Hz) as Ov.
+    destruct (is_subset v old) eqn:S1.
+    + exists t1, n. split; [reflexivity|]. split; [unfold inv; rewrite Hi; auto|].
+      intros q. rewrite Hi. split; [auto|]. intros [H|H]; [exact H|].
+      exists old. split; [exact Hin|]. exact (subset_sound v old Wv Wold Ov S1 q H).
+    + pose proof (subset_total v old S1) as S2. rewrite S2.
+      destruct (in_split old (inorder t1)) as (A & B & HAB); [rewrite Hi; exact Hin|].
+      rewrite Hi in HAB. rewrite HAB in W, S.
+      apply Forall_app in W. destruct W as [WA WB']. inversion WB' as [|? ? _ WB]; subst.
+      apply sd_app in S. destruct S as (SA & SB' & Hc). cbn [sd] in SB'. destruct SB' as [FB SB].
+      assert (PA : Forall (fun y => dcompare old y > 0) A).
+      { rewrite Forall_forall in *. intros y Hy. apply (dcompare_pos old y Wold (WA y Hy)).
+        apply Hc; [exact Hy| left; reflexivity]. }
+      assert (PB : Forall (fun y => dcompare old y < 0) B).
+      { rewrite Forall_forall in *. intros y Hy. apply (dcompare_neg old y Wold (WB y Hy)). apply FB, Hy. }
+      destruct (sp_remove_spec (dcompare old) t1 A old B ltac:(rewrite Hi; exact HAB) (dcompare_refl old Wold) PA PB)
+        as (t2 & Er & Hi2).
+      rewrite Er.
+      assert (Inv2 : inv t2).
+      { unfold inv. rewrite Hi2. split; [apply Forall_app; auto|].
+        apply sd_app. repeat split; try assumption.
+        intros x y Hx Hy. eapply before_trans; [apply Hc; [exact Hx| left; reflexivity]|].
+        rewrite Forall_forall in FB. apply FB, Hy. }
+      assert (Sz : (tree_size t2 < f)%nat).
+      { rewrite <- (inorder_length t2), Hi2. rewrite <- (inorder_length t), HAB in Hf.
+        rewrite app_length in *. cbn [length] in Hf. lia. }
+      destruct (IH t2 (n - 1) v Inv2 Wv Sz) as (t' & n' & Em & Inv' & Hcov).
+      exists t', n'. split; [exact Em|]. split; [exact Inv'|].
+      intros q. rewrite Hcov, Hi2, HAB. rewrite !covered_app, covered_cons.
+      assert (Ov' : inI (lo v) old \/ inI (lo old) v) by tauto.
+      pose proof (subset_sound old v Wold Wv Ov' S2 q) as Hsub. tauto.
+  - destruct (sp_insert_new _ v t t1 M Ei) as (A & B & HAB & Hi & PA & PB).
+    rewrite HAB in W, S. apply Forall_app in W. destruct W as [WA WB].
+    apply sd_app in S. destruct S as (SA & SB & Hc).
+    exists t1, (n + 1)%Z. split; [reflexivity|]. split.
+    + unfold inv. rewrite Hi. split; [apply Forall_app; split; [exact WA| constructor; assumption]|].
+      apply sd_app. split; [exact SA|]. split.
+      * cbn [sd]. split; [|exact SB]. rewrite Forall_forall in *. intros y Hy.
+        apply (dcompare_neg v y Wv (WB y Hy)). apply PB, Hy.
+      * rewrite Forall_forall in *. intros x y Hx [<-|Hy].
+        -- apply (dcompare_pos v x Wv (WA x Hx)). apply PA, Hx.
+        -- apply Hc; assumption.
+    + intros q. rewrite Hi, HAB. rewrite !covered_app, covered_cons. tauto.
+Qed.
+
+(* lower-casing a value changes neither its well-formedness nor its interval *)
+Lemma first_is_dot_lower v : first_is_dot (lower_str v) = first_is_dot v.
+Proof.
+  destruct v as [|c v]; [reflexivity|]. cbn [lower_str map first_is_dot].
+  destruct (N.eqb_spec c dot) as [->|E].
+  - rewrite lower_dot_self. apply N.eqb_refl.
+  - apply N.eqb_neq. intros H. apply (proj1 (lower_dot c)) in H. contradiction.
+Qed.
+
+Lemma root1_lower v : root1 (lower_str v) = lower_str (root1 v).
+Proof.
+  unfold root1. rewrite first_is_dot_lower. destruct (first_is_dot v); [|reflexivity].
+  destruct v; reflexivity.
+Qed.
+
+Lemma rk_lower s : rk (lower_str s) = rk s.
+Proof.
+  unfold rk, lower_str. rewrite <- map_rev, map_map. apply map_ext. intros c. apply key_lower.
+Qed.
+
+Lemma lo_lower v : lo (lower_str v) = lo v.
+Proof. unfold lo. rewrite root1_lower. apply rk_lower. Qed.
+
+Lemma ext_lower v : ext (lower_str v) = ext v.
+Proof. unfold ext. now rewrite first_is_dot_lower. Qed.
+
+Lemma inI_lower q v : inI q (lower_str v) <-> inI q v.
+Proof. unfold inI, vpos. rewrite lo_lower, ext_lower. reflexivity. Qed.
+
+Lemma wf_lower v : wf v -> wf (lower_str v).
+Proof.
+  intros [Hne Hd]. unfold wf. rewrite root1_lower, first_is_dot_lower. split; [|exact Hd].
+  destruct (root1 v); [congruence| discriminate].
+Qed.
+
+Theorem acl_parse_from_spec : forall toks t n, inv t -> Forall wf toks ->
+  exists t' n', acl_parse_from t n toks = MOk t' n' /\ inv t' /\
+    (forall q, covered q (inorder t') <-> covered q (inorder t) \/ covered q toks).
+Proof.
+  induction toks as [|tok toks IH]; intros t n Hinv W.
+  - exists t, n. split; [reflexivity|]. split; [exact Hinv|].
+    intros q. split; [auto|]. intros [H|(x & [] & _)]. exact H.
+  - inversion W as [|? ? Wt Wr]; subst. cbn [acl_parse_from].
+    destruct (merge_spec (merge_fuel t) t n (lower_str tok) Hinv (wf_lower tok Wt) ltac:(unfold merge_fuel; lia))
+      as (t1 & n1 & Em & Inv1 & Hc1).
+    rewrite Em.
+    destruct (IH t1 n1 Inv1 Wr) as (t' & n' & Ep & Inv' & Hc').
+    exists t', n'. split; [exact Ep|]. split; [exact Inv'|].
+    intros q. rewrite Hc', Hc1, covered_cons, inI_lower. tauto.
+Qed.
+
+(* ------------------------------------------------------------------ *)
+(* match(): lookup in a sorted, disjoint sequence                       *)
+Theorem acl_match_spec t host : inv t ->
+  inorder (fst (acl_match t host)) = inorder t /\
+  (snd (acl_match t host) = true <->
+   strip_dots host <> [] /\ covered (rk (strip_dots host)) (inorder t)).
+Proof.
+  intros [W S]. unfold acl_match.
+  pose proof (sp_find_inorder (host_cmp host) t) as Hi.
+  pose proof (sp_find_iff (host_cmp host) t (mono_host host _ W S)) as Hiff.
+  destruct (sp_find (host_cmp host) t) as [t' r]. cbn [fst snd] in *. split; [exact Hi|].
+  assert (E : (match r with Some _ => true | None => false end) = true <-> exists x, r = Some x).
+  { destruct r as [x|]; split; intros H; [exists x; reflexivity| reflexivity| discriminate| destruct H; discriminate]. }
+  rewrite E, Hiff. unfold host_cmp, covered.
+  destruct (strip_dots host) as [|c h'] eqn:Eh.
+  - split.
+    + intros (x & _ & Hx). rewrite (mdn_empty_host host x Eh) in Hx. discriminate.
+    + intros [H _]. congruence.
+  - assert (Hh : strip_dots host <> []) by (rewrite Eh; discriminate).
+    split.
+    + intros (x & Hin & Hx). split; [discriminate|]. exists x. split; [exact Hin|].
+      assert (Wx : wf x) by (rewrite Forall_forall in W; apply W, Hin).
+      pose proof (mdn_pos host x (wf_nonempty x Wx) Hh) as Sx. rewrite Eh in Sx.
+      apply (sign_is_eq _ _ Sx), Hx.
+    + intros (_ & x & Hin & Hx). exists x. split; [exact Hin|].
+      assert (Wx : wf x) by (rewrite Forall_forall in W; apply W, Hin).
+      pose proof (mdn_pos host x (wf_nonempty x Wx) Hh) as Sx. rewrite Eh in Sx.
+      apply (sign_is_eq _ _ Sx), Hx.
+Qed.
+
+(* ------------------------------------------------------------------ *)
+(* the property in terms of strings                                    *)
+Definition ieq (a b : bytes) : Prop := lower_str a = lower_str b.
+
+(* C41: a value beginning with a dot matches that domain and all its
+   sub-domains, any other value matches only itself, case-insensitively.
+   (Leading dots of the looked-up name are not part of a host name.) *)
+Definition dom_match (v host : bytes) : Prop :=
+  let h := strip_dots host in
+  h <> [] /\
+  if first_is_dot v
+  then ieq h (tl v) \/ (exists p, lower_str h = p ++ lower_str v)
+  else ieq h v.
+
+Lemma map_key_eq a : forall b, map key a = map key b <-> map lower a = map lower b.
+Proof.
+  induction a as [|x a IH]; intros [|y b]; cbn [map]; try (split; discriminate); [tauto|].
+  split; intros H; inversion H as [[H1 H2]]; f_equal;
+    try (apply key_eq_iff; assumption); try (apply IH; assumption).
+Qed.
+
+Lemma rk_eq_iff a b : rk a = rk b <-> ieq a b.
+Proof.
+  unfold rk, ieq, lower_str. rewrite map_key_eq. rewrite !map_rev. split.
+  - intros H. apply (f_equal (@rev N)) in H. now rewrite !rev_involutive in H.
+  - intros ->. reflexivity.
+Qed.
+
+Lemma map_app_inv {A B} (f : A -> B) l : forall a b, map f l = a ++ b ->
+  exists l1 l2, l = l1 ++ l2 /\ map f l1 = a /\ map f l2 = b.
+Proof.
+  induction l as [|x l IH]; intros a b H; cbn [map] in H.
+  - destruct a; [|discriminate]. destruct b; [|discriminate]. exists [], []. auto.
+  - destruct a as [|y a]; cbn [app] in H.
+    + exists [], (x :: l). auto.
+    + inversion H; subst. destruct (IH a b H2) as (l1 & l2 & -> & <- & <-).
+      exists (x :: l1), l2. auto.
+Qed.
+
+Lemma lower_str_app a b : lower_str (a ++ b) = lower_str a ++ lower_str b.
+Proof. apply map_app. Qed.
+
+Lemma rk_suffix_iff h r :
+  (exists w, rk h = rk r ++ 0%N :: w) <-> (exists p, lower_str h = p ++ dot :: lower_str r).
+Proof.
+  split.
+  - intros (w & H). unfold rk in H.
+    destruct (map_app_inv key (rev h) _ _ H) as (l1 & l2 & E & H1 & H2).
+    destruct l2 as [|c l2]; [discriminate|]. cbn [map] in H2. assert (Hc : key c = 0%N) by (inversion H2; reflexivity).
+    apply key_zero in Hc. subst c.
+    apply (f_equal (@rev N)) in E. rewrite rev_involutive, rev_app_distr in E. cbn [rev] in E.
+    rewrite <- app_assoc in E. cbn [app] in E.
+    exists (lower_str (rev l2)). rewrite E, lower_str_app. cbn [lower_str map]. rewrite lower_dot_self.
+    f_equal. f_equal. unfold lower_str.
+    apply map_key_eq in H1. rewrite map_rev, H1, <- map_rev, rev_involutive. reflexivity.
+  - intros (p & H). exists (rk p). rewrite <- (rk_lower h), H. unfold rk.
+    rewrite rev_app_distr. cbn [rev]. rewrite map_app, map_app. cbn [map].
+    change (key dot) with 0%N. rewrite <- app_assoc. cbn [app].
+    fold (rk (lower_str r)). rewrite rk_lower. reflexivity.
+Qed.
+
+Theorem inI_dom_match v h : v <> [] ->
+  (inI (rk h) v <->
+   if first_is_dot v then ieq h (tl v) \/ (exists p, lower_str h = p ++ lower_str v) else ieq h v).
+Proof.
+  intros Hv. destruct (first_is_dot v) eqn:Fv.
+  - rewrite (inI_dot _ _ Fv). unfold lo, root1. rewrite Fv.
+    destruct v as [|c r]; [congruence|]. cbn [first_is_dot] in Fv. apply N.eqb_eq in Fv. subst c.
+    cbn [tl]. rewrite rk_eq_iff, rk_suffix_iff. cbn [lower_str map]. rewrite lower_dot_self. reflexivity.
+  - rewrite (inI_plain _ _ Fv). unfold lo, root1. rewrite Fv. apply rk_eq_iff.
+Qed.
+
+Lemma covered_dom_match host toks : Forall wf toks ->
+  (strip_dots host <> [] /\ covered (rk (strip_dots host)) toks) <->
+  (exists v, In v toks /\ dom_match v host).
+Proof.
+  intros W. unfold covered, dom_match. rewrite Forall_forall in W. split.
+  - intros (Hh & v & Hin & Hq). exists v. split; [exact Hin|]. split; [exact Hh|].
+    apply (inI_dom_match v _ (wf_nonempty v (W v Hin))), Hq.
+  - intros (v & Hin & Hh & Hm). split; [exact Hh|]. exists v. split; [exact Hin|].
+    apply (inI_dom_match v _ (wf_nonempty v (W v Hin))), Hm.
+Qed.
+
+(* ------------------------------------------------------------------ *)
+(* end to end                                                          *)
+Definition acl_holds (toks : list bytes) (t : tree bytes) : Prop :=
+  inv t /\ forall q, covered q (inorder t) <-> covered q toks.
+
+Theorem acl_parse_ok toks : Forall wf toks ->
+  exists t n, acl_parse toks = MOk t n /\ acl_holds toks t.
+Proof.
+  intros W. destruct (acl_parse_from_spec toks Leaf 0%Z inv_leaf W) as (t & n & E & Hinv & Hc).
+  exists t, n. split; [exact E|]. split; [exact Hinv|].
+  intros q. rewrite Hc. split; [|auto]. intros [(x & [] & _)|H]. exact H.
+Qed.
+
+Theorem acl_match_correct toks t host : Forall wf toks -> acl_holds toks t ->
+  acl_holds toks (fst (acl_match t host)) /\
+  (snd (acl_match t host) = true <-> exists v, In v toks /\ dom_match v host).
+Proof.
+  intros W [Hinv Hc]. destruct (acl_match_spec t host Hinv) as [Hi Hm]. split.
+  - destruct Hinv as [W' S]. split; [unfold inv; rewrite Hi; auto|]. intros q. rewrite Hi. apply Hc.
+  - rewrite Hm, <- (covered_dom_match host toks W).
+    split; intros [H1 H2]; (split; [exact H1|]); apply Hc, H2.
+Qed.
+
+(* every answer of a sequence of lookups (each of which re-shapes the tree) is right *)
+Theorem acl_match_seq_correct toks : Forall wf toks -> forall hosts t, acl_holds toks t ->
+  Forall2 (fun host b => b = true <-> exists v, In v toks /\ dom_match v host)
+          hosts (snd (acl_match_seq t hosts)).
+Proof.
+  intros W. induction hosts as [|h hosts IH]; intros t Ht; cbn [acl_match_seq]; [constructor|].
+  destruct (acl_match_correct toks t h W Ht) as [Ht1 Hb].
+  destruct (acl_match t h) as [t1 b]. cbn [fst snd] in *.
+  specialize (IH t1 Ht1). destruct (acl_match_seq t1 hosts) as [t2 bs]. cbn [snd] in *.
+  constructor; assumption.
+Qed.
+
+Theorem acl_correct toks : Forall wf toks ->
+  exists t n, acl_parse toks = MOk t n /\
+    forall host, snd (acl_match t host) = true <-> exists v, In v toks /\ dom_match v host.
+Proof.
+  intros W. destruct (acl_parse_ok toks W) as (t & n & E & H). exists t, n. split; [exact E|].
+  intros host. apply (acl_match_correct toks t host W H).
+Qed.
+
+(* leading dots of the looked-up name are ignored by every comparison *)
+Lemma mdn_leading_dot host d : matchDomainName (dot :: host) d = matchDomainName host d.
+Proof. unfold matchDomainName. cbn [strip_dots]. rewrite N.eqb_refl. reflexivity. Qed.
+
+(* ------------------------------------------------------------------ *)
+(* without well-formedness the statement is false for the model         *)
+Definition s_a : bytes := [97%N].                    (* the name a *)
+Definition s_dda : bytes := [46%N; 46%N; 97%N].      (* the value ..a *)
+Definition s_da : bytes := [46%N; 97%N].             (* the value .a *)
+
+Theorem acl_any_values_refuted :
+  exists toks host t n,
+    Forall (fun v => v <> []) toks /\
+    acl_parse toks = MOk t n /\
+    (exists v, In v toks /\ dom_match v host) /\
+    snd (acl_match t host) = false.
+Proof.
+  exists [s_dda; s_a], s_a, (Node Leaf s_dda Leaf), 1.
+  split; [repeat constructor; discriminate|].
+  split; [vm_compute; reflexivity|].
+  split; [|vm_compute; reflexivity].
+  exists s_a. split; [right; left; reflexivity|].
+  unfold dom_match. cbn. split; [discriminate| reflexivity].
+Qed.
+
+(* ... and parse() itself can free a value that is still stored *)
+Theorem acl_parse_dangling_refuted : acl_parse [s_dda; s_da] = MDangling.
+Proof. vm_compute. reflexivity. Qed.
+
+(* ------------------------------------------------------------------ *)
+(* statements packaged for Properties_C41.v                            *)
+Lemma lower_facts c : lower (lower c) = lower c /\ (lower c = dot <-> c = dot).
+Proof. split; [apply lower_idem| apply lower_dot]. Qed.
+
+(* one value, any non-empty value (also the malformed ones): the comparison used by
+   match() answers 0 exactly for the names the value stands for *)
+Theorem mdn_zero_iff host v : v <> [] -> (matchDomainName host v = 0 <-> dom_match v host).
+Proof.
+  intros Hv. unfold dom_match. cbn zeta.
+  destruct (strip_dots host) as [|c h] eqn:Eh.
+  - rewrite (mdn_empty_host host v Eh). split; [discriminate| intros [H _]; congruence].
+  - assert (Hh : strip_dots host <> []) by (rewrite Eh; discriminate).
+    pose proof (mdn_pos host v Hv Hh) as S. rewrite Eh in S.
+    rewrite (sign_is_eq _ _ S). fold (inI (rk (c :: h)) v). rewrite (inI_dom_match v (c :: h) Hv).
+    split; [intros H; split; [discriminate| exact H]| intros [_ H]; exact H].
+Qed.
+
+Theorem dcompare_sign a b : wf a -> wf b ->
+  (dcompare a b < 0 <-> before a b) /\ (dcompare a b > 0 <-> before b a) /\
+  (dcompare a b = 0 -> inI (lo b) a \/ inI (lo a) b).
+Proof. intros Ha Hb. split; [apply dcompare_neg| split; [apply dcompare_pos| apply dcompare_zero]]; assumption. Qed.
